@@ -29,6 +29,7 @@ type G struct {
 	done      bool
 	prio      int // PCT priority
 	parkUntil uint64
+	vc        VC // vector clock (happens-before tracking, see race.go)
 }
 
 // Plan is everything that decides one simulated compile.
@@ -69,6 +70,7 @@ type Stats struct {
 	CrashStack   string            `json:"crash_stack,omitempty"`
 	Hang         string            `json:"hang,omitempty"`
 	YCalls       uint64            `json:"y_calls"`
+	Races        []string          `json:"races,omitempty"` // kind|site of earlier write|site of later write|goroutines
 	Extra        map[string]string `json:"extra,omitempty"`
 }
 
@@ -82,7 +84,10 @@ type sim struct {
 	maprng   rng
 	finerng  rng
 	curOp    string
-	parked   []*G                   // stalled inside a read-modify-write window until parkUntil
+	parked   []*G // stalled inside a read-modify-write window until parkUntil
+	addrClk  map[unsafe.Pointer]*Clock
+	writes   map[unsafe.Pointer]lastWrite
+	raceSeen map[string]bool
 	rmwOwner map[unsafe.Pointer]int // location -> goroutine id that updated it, -1: several (the pointers keep the objects alive: no address is reused within a run)
 	curMut   bool
 	tapePos  int
@@ -157,7 +162,7 @@ func Begin(p Plan, fatal func(kind, msg, stack string)) {
 			s.mapOnly[m] = true
 		}
 	}
-	g := &G{id: 0, name: "0", wake: make(chan struct{}, 1)}
+	g := &G{id: 0, name: "0", wake: make(chan struct{}, 1), vc: VC{1}}
 	s.all = []*G{g}
 	s.cur = g
 	s.nlive = 1
@@ -498,6 +503,10 @@ func Go(f func()) {
 	if strings.HasPrefix(s.plan.Strategy, "pct") {
 		g.prio = 1000 + s.rng.intn(1000)
 	}
+	// the go statement happens before the goroutine's execution begins
+	g.vc = append(VC(nil), parent.vc...)
+	g.tick()
+	parent.tick()
 	s.all = append(s.all, g)
 	s.stats.Spawned++
 	s.nlive++
@@ -597,6 +606,9 @@ func ywSlow(addr unsafe.Pointer) {
 	}
 	if !s.plan.Fine || s.nlive < 2 {
 		return
+	}
+	if addr != nil {
+		writeAccess(addr, "update", callerSite(3))
 	}
 	shared := false
 	if addr != nil {
